@@ -30,6 +30,8 @@ pub fn pure_arg(e: &syn::Expr) -> bool {
         syn::Expr::Reference(r) => pure_arg(&r.expr),
         syn::Expr::Unary(u) => pure_arg(&u.expr),
         syn::Expr::Cast(c) => pure_arg(&c.expr),
+        // accessors without effects on a side-effect-free receiver
+        syn::Expr::MethodCall(mc) => mc.args.is_empty() && pure_arg(&mc.receiver) && matches!(mc.method.to_string().as_str(), "as_deref" | "as_ref" | "as_str" | "as_slice" | "clone" | "copied" | "cloned" | "len" | "is_empty" | "is_some" | "is_none" | "to_owned"),
         _ => false,
     }
 }
@@ -165,13 +167,31 @@ fn cand_of(sig: &syn::Signature, vis: &syn::Visibility, attrs: &[syn::Attribute]
             }
         }
     }
+    // a parameter that some pattern inside the body binds again (`if let Some(kind) = kind`) is shadowed there: the
+    // scope-unaware substitution would reach into the shadowed region
+    {
+        struct Binds(BTreeSet<String>);
+        impl<'ast> syn::visit::Visit<'ast> for Binds {
+            fn visit_pat_ident(&mut self, p: &'ast syn::PatIdent) {
+                self.0.insert(p.ident.to_string());
+                syn::visit::visit_pat_ident(self, p);
+            }
+        }
+        let mut b = Binds(BTreeSet::new());
+        syn::visit::Visit::visit_block(&mut b, block);
+        for p in &params {
+            if b.0.contains(p) {
+                fixed.insert(p.clone());
+            }
+        }
+    }
     let unit = match &sig.output {
         syn::ReturnType::Default => Some(false),
         syn::ReturnType::Type(_, t) => {
             let tt = sm::tsc(t);
             if tt == "()" {
                 Some(false)
-            } else if tt.starts_with("Result<(),") {
+            } else if tt.starts_with("Result<(),") || tt == "fmt::Result" || tt == "std::fmt::Result" || tt == "core::fmt::Result" {
                 Some(true)
             } else {
                 None
